@@ -133,7 +133,7 @@ static void case_c01(rng_t *r, ctx_t *c) {
     v_count("C01", "signals", nsig);
     model_free(&m); prog_free(&p);
     for (int i = 0; i < nsig; ++i) free(lists[i].ops);
-    unlink(path);
+    if (!getenv("VERIF_KEEP")) unlink(path);
 }
 
 /* ----------------------------------- C02 -------------------------------------------- */
@@ -147,17 +147,35 @@ static void case_c02(rng_t *r, ctx_t *c) {
     gen_def(r, &d, 3, 1, t, dcls);
     int fcls; int64_t first = gen_first_id(r, &fcls);
     d.sample_id_offset = first;
+    int wantband = rng_chance(r, 1, 4);
+    if (wantband) {   /* summary chunks wider than 25 entries of the next level: see "band" below */
+        d.sample_decimate_factor = 10; d.summary_decimate_factor = 10;
+        d.samples_per_data = 10 * (uint32_t) rng_range(r, 1, 5);
+        d.entries_per_summary = (uint32_t) rng_range(r, 260, 600);
+    }
     def_normalised(&d, &nm);
     /* enough samples for the target level: 25 * sdf * sumdf^(L-1), plus slack */
     int target = (int) rng_range(r, 0, c->thorough ? 5 : 3);
     int64_t need = 25 * (int64_t) nm.sample_decimate_factor;
     for (int k = 2; k <= target; ++k) need *= nm.summary_decimate_factor;
     int64_t budget = type_budget(t, c->thorough ? (24 << 20) : (3 << 20));
+    if (budget > (c->thorough ? 6000000 : 1500000)) budget = c->thorough ? 6000000 : 1500000;   /* the oracle is O(n) per request */
     int64_t n = need + rng_range(r, 0, need / 2 + nm.samples_per_data * 3);
     if (rng_chance(r, 1, 4)) n = need * 2 + rng_range(r, 0, def_level_span(&nm, 1));
+    int band = 0;
+    if (wantband) {
+        /* top-level band: longer than 25 entries of level L+1 but shorter than one full chunk of level L,
+         * so level L+1 exists only if the writer creates it on close (the reader selects it by duration) */
+        int L = (int) rng_range(r, 1, target > 1 ? target : 1);
+        int64_t stepL = nm.sample_decimate_factor;
+        for (int k = 2; k <= L; ++k) stepL *= nm.summary_decimate_factor;
+        int64_t lo = 25 * stepL * nm.summary_decimate_factor, hi = (int64_t) nm.entries_per_summary * stepL;
+        if (hi > lo + 1 && lo < budget) { n = rng_range(r, lo, hi - 1); band = L; }
+    }
     while (n > budget && target > 0) { --target; need /= nm.summary_decimate_factor; n = need + rng_range(r, 0, need / 2 + 3); }
     if (n > budget) n = budget;
     int pat = rng_chance(r, 3, 4) ? PAT_WALK : PAT_SMALL;
+    if (t->bits >= 16 && rng_chance(r, 1, 3)) pat = PAT_OFFSET;
     int si = prog_add_signal(&p, &d, "stat", "A", pat, rng_u64(r));
     p.sig[p.ops[si].def].blk = nm.samples_per_data;
     oplist_t l; memset(&l, 0, sizeof(l));
@@ -178,11 +196,11 @@ static void case_c02(rng_t *r, ctx_t *c) {
     decode_and_compare(path, &m, "C05", "sync", 0);
     int levels = 0;
     { jd_t dd; if (!jd_load(&dd, path)) { jd_decode(&dd); levels = summary_levels(&dd, 3); jd_free(&dd); } }
-    v_feature("C02", m.sig[3].have, "%s|def=%s|levels=%d|first=%s|pat=%d|gap=%d", t->name, DEF_CLASS_NAME[dcls], levels, FIRST_NAME[fcls], pat, gap);
+    v_feature("C02", m.sig[3].have, "%s|def=%s|levels=%d|first=%s|pat=%d|gap=%d|band=%d", t->name, DEF_CLASS_NAME[dcls], levels, FIRST_NAME[fcls], pat, gap, band);
     verify_opts_t vo = {.prop_len = "C01", .prop_data = NULL, .check_stats = 1, .stats_requests = c->thorough ? 120 : 80, .max_level = c->thorough ? 5 : 3, .rng = r, .file_kind = "sync"};
     verify_file(path, &m, &vo);
     model_free(&m); prog_free(&p); free(l.ops);
-    unlink(path);
+    if (!getenv("VERIF_KEEP")) unlink(path);
 }
 
 /* ----------------------------------- C09 -------------------------------------------- */
@@ -282,7 +300,7 @@ static void case_c09(rng_t *r, ctx_t *c) {
     verify_file(path, &m, &vo);
     if (t->kind == 2) c09_summaries(path, &m, 5);
     model_free(&m); prog_free(&p);
-    unlink(path);
+    if (!getenv("VERIF_KEEP")) unlink(path);
 }
 
 /* ----------------------------------- C11 -------------------------------------------- */
@@ -385,7 +403,7 @@ static void case_c11(rng_t *r, ctx_t *c) {
     verify_file(path, &m, &vo);
     model_free(&m); prog_free(&p);
     for (int i = 0; i < nl; ++i) free(lists[i].ops);
-    unlink(path);
+    if (!getenv("VERIF_KEEP")) unlink(path);
 }
 
 /* ----------------------------------- C12 -------------------------------------------- */
@@ -447,7 +465,7 @@ static void case_c12(rng_t *r, ctx_t *c) {
     verify_opts_t vo = {.prop_len = "C01", .prop_data = NULL, .check_utc = 1, .rng = r, .file_kind = "sync"};
     verify_file(path, &m, &vo);
     model_free(&m); prog_free(&p); free(l[0].ops); free(l[1].ops);
-    unlink(path);
+    if (!getenv("VERIF_KEEP")) unlink(path);
 }
 
 /* ----------------------------------- C13 -------------------------------------------- */
@@ -707,7 +725,7 @@ static void case_c13(rng_t *r, ctx_t *c) {
     model_free(&m); prog_free(&p);
     free(defs); free(sigdefs); free(ldef.ops); free(ldata.ops); free(luser.ops); free(lrej.ops);
     for (int i = 0; i < 8; ++i) free(per[i].ops);
-    unlink(path);
+    if (!getenv("VERIF_KEEP")) unlink(path);
 }
 
 /* ----------------------------------- C15 -------------------------------------------- */
